@@ -130,7 +130,7 @@ pub fn generate(seed: u64, g: &GenCtx) -> Scenario {
         let mut has_local = false;
         for _ in 0..n_ops {
             let roll = rng.below(100);
-            let op = if roll < 66 {
+            let op = if roll < 60 {
                 let src = if rng.chance(4, 5) {
                     *rng.pick(&pool)
                 } else {
@@ -182,10 +182,10 @@ pub fn generate(seed: u64, g: &GenCtx) -> Scenario {
                 let keep = rng.chance(1, 2);
                 has_local |= keep && crash.is_none();
                 Op::Lex(LexOp { src, placement, knobs, shrink_at, crash, keep })
-            } else if roll < 74 && f_share && has_local {
+            } else if roll < 72 && f_share && has_local {
                 has_local = false;
                 Op::Share { slot: rng.below(SHARED_SLOTS as u64) as u8 }
-            } else if roll < 86 && f_share {
+            } else if roll < 87 && f_share {
                 Op::ReadShared { slot: rng.below(SHARED_SLOTS as u64) as u8 }
             } else if roll < 91 && f_migrate {
                 Op::Migrate
